@@ -71,6 +71,20 @@ Section Dispatch.
       | _ => let '(l', o') := react_all early late reaction t in (l ++ l', o')
       end
     end.
+
+  (* the flush of the outgoing queue ("while self._pop_packet(): pass" in disconnect(), and the write phase of the loop):
+     every queued packet goes through _write_packet in queue order; IgnorePacket from an outgoing listener affects that
+     packet only, any other exception leaves the loop with the rest still queued *)
+  Fixpoint flush_all (early_out late_out : list listener) (write : packet -> beh) (ps : list packet) : list event * outcome * list packet :=
+    match ps with
+    | [] => ([], ODone, [])
+    | p :: t =>
+      let '(l, o) := write_out early_out late_out write p in
+      match o with
+      | ORaised e => (l, ORaised e, t)
+      | _ => let '(l', o', rest) := flush_all early_out late_out write t in (l ++ l', o', rest)
+      end
+    end.
 End Dispatch.
 
 (* register_packet_listener: the four target lists *)
